@@ -35,8 +35,15 @@ def run_one(ctx, cfg):
     try:
         main = gen.write_layout(h5, lay)
         target = h5t if cfg['separate'] else None
+        if cfg.get('legacy_before') is not None:
+            # an OLDER interrupted group of the same process that only carries the legacy record (last_pixel); the computation
+            # must run in, read its pending positions from and mark the NEWER group
+            lg = procutil.seed_partial_group(main, [1] * cfg['legacy_before'] + [0] * (N - cfg['legacy_before']), target=target,
+                                             with_status=False, last_pixel=cfg['legacy_before'])
         if any(mask):
             procutil.seed_partial_group(main, mask, target=target)
+        if cfg.get('legacy_before') is not None and 'completed_positions' in lg:
+            del lg['completed_positions']          # seeding the second group upgraded the first (known finding of C05): undo
         with common.quiet():
             p = procutil.MapProc(main, cores=cfg['cores'], lazy=cfg['lazy'], h5_target_group=target)
             if cfg['maxpos'] is not None:
@@ -44,7 +51,10 @@ def run_one(ctx, cfg):
         procutil.LOG['path'] = log
         try:
             with common.quiet():
-                grp = p.compute()
+                if cfg.get('extra_args'):
+                    grp = p.compute(False, 2.5, -2.5, offset=0.0)
+                else:
+                    grp = p.compute()
         finally:
             procutil.LOG['path'] = None
         rows, pids = procutil.read_log(log, M)
@@ -96,7 +106,7 @@ def gen_cfg(rng, quick, big=False):
     else:
         maxpos = rng.randint(1, max(1, n))
     return {'N': N, 'M': M, 'mask': mask, 'maxpos': maxpos, 'cores': rng.choice([2, 4]) if big else 1,
-            'lazy': rng.random() < 0.4, 'separate': rng.random() < 0.3}
+            'lazy': rng.random() < 0.4, 'separate': rng.random() < 0.3, 'extra_args': rng.random() < 0.5}
 
 
 def oracle(cfg, obs):
@@ -135,6 +145,11 @@ def run(ctx, build):
     cfgs = [gen_cfg(rng, ctx.quick()) for _ in range(n_small)] + [gen_cfg(rng, ctx.quick(), big=True) for _ in range(n_big)]
     # designed, seed-independent: large datasets that are all but complete (a decision taken on a rounded percentage must not
     # mistake them for finished ones)
+    cfgs += [{'N': 130, 'M': 2, 'mask': [0] * 130, 'maxpos': 55, 'cores': 2, 'lazy': False, 'separate': False, 'extra_args': True},
+             {'N': 24, 'M': 2, 'mask': [1 if i in (0, 1, 2, 3, 4, 12, 13, 14, 15) else 0 for i in range(24)], 'maxpos': 5, 'cores': 1, 'lazy': False,
+              'separate': False, 'legacy_before': 9},
+             {'N': 24, 'M': 1, 'mask': [1 if i % 3 == 0 else 0 for i in range(24)], 'maxpos': 7, 'cores': 1, 'lazy': True,
+              'separate': True, 'legacy_before': 9, 'extra_args': True}]
     cfgs += [{'N': 400, 'M': 2, 'mask': [0 if i == 137 else 1 for i in range(400)], 'maxpos': 50, 'cores': 1, 'lazy': False, 'separate': False},
              {'N': 250, 'M': 1, 'mask': [0 if i == 249 else 1 for i in range(250)], 'maxpos': 3, 'cores': 1, 'lazy': True, 'separate': True}]
     for cfg in cfgs:
